@@ -18,7 +18,7 @@ NA = {
 }
 
 PENDING = "applicable to this technique (see DESIGN.md section 4) but its check is not built yet at this commit; not claimed until it is"
-for _p in ("C16", "C17"):
+for _p in ():
 	NA.setdefault(_p, PENDING)
 
 CHECKS = {
@@ -60,12 +60,28 @@ CHECKS.update({
   note="Tables from the implementation's sequential _pwm_to_mapping (C11 not claimed); ambiguity band at the threshold; sim leg uses NumPy scalar arithmetic for the orchestration; real-thread schedules uncontrolled.",
   technique="deterministic simulation: seeded thread schedules for the motif-parallel scan + storage-backend switching, against a pure-Python reference scanner",
   engine="threads"),
+ "C16": dict(
+  level="exploration",
+  text="Simulated storage. Leg 'meme'/'meme_trunc': read_meme reads generated MEME documents through the real TextIOWrapper/BufferedReader stack over a simulated raw byte source (module attribute tangermeme.io.open) with seeded short reads (1..64 bytes, small buffers) and, in the fault-injecting leg, a truncation/EOF offset biased to record boundaries (right after a last matrix row, after its newline, at line starts, arbitrary bytes); record layout is seeded (LF/CRLF, trailing blanks/tabs, indentation, 0/1/3 blank lines between records, URL line, header/nsites variants, final newline, EOF immediately after the last row). Oracle: exactly the motifs whose matrices are completely in the (possibly truncated) file, in order, values bit-equal. Leg 'loci': extract_loci on generated genomes with each input supplied through a seeded backend (FASTA|dict, bigWig|dict, BED|DataFrame; 2-4 combinations per world), compared with an independent slicing model (round-robin interleave, midpoint/half-width incl. odd windows and jitter, edge omission, count filters, n_loci).",
+  ref="DESIGN.md 4 (C16)",
+  note="Boundary loci whose window starts at position 0 or ends exactly at the chromosome end may be kept or omitted; mid-line truncation may make the call raise; names compared after strip().",
+  technique="deterministic simulation: simulated storage (short reads, truncation/EOF points, layout, backend switching) against a slicing reference model",
+  engine="iosim"),
+ "C17": dict(
+  level="exploration",
+  text="The joblib process pool of extract_matching_loci is replaced (module attribute match.Parallel) by a simulated pool with seeded worker count, task dealing and completion order and an optional failing worker; genome / bigWig / BED inputs are generated files (GC-controlled blocks, N stretches, lower case, NaN signal gaps, chromosome missing from the bigWig). Each world is executed under 3-5 schedules (plus joblib n_jobs=1, and in leg 'realpool' the real loky pool with n_jobs 1-3); every result is checked against a relation oracle recomputed from the genome (aligned in-chromosome tiles, uniqueness, disjointness from input-touched tiles, N filter, signal filter, result size, per-GC-bin lower/upper bounds, no unmatched inputs while eligible background remains, sorted) and all executions of a world must return the same rows.",
+  ref="DESIGN.md 4 (C17)",
+  note="'touched' is read liberally for disjointness and conservatively (implementation mask) for lower bounds; usable inputs strict/loose likewise; under injected faults only per-row clauses are required.",
+  technique="deterministic simulation: simulated worker pool (order, worker count, failure) + generated storage, against a relation oracle and cross-schedule equality",
+  engine="parsim"),
 })
 
 ENGINES = [
  {"name": "simkit", "path": "simkit/", "serves_properties": sorted(CHECKS), "kind_free_text": "seeded decision streams, event-log digests, fork-pool runner with crash/hang containment, ddmin minimiser, fresh-process replay confirmation, evidence writer"},
  {"name": "modelworld", "path": "engines/modelworld.py, engines/modelops.py", "serves_properties": ["C06", "C07"], "kind_free_text": "generated torch models carrying FaultPoint layers, fault plan consulted at every call-level seam, snapshot invariants, the 14 model-taking API ops as generated operations"},
  {"name": "rngseam", "path": "engines/rngseam.py", "serves_properties": ["C02"], "kind_free_text": "re-binds _fast_shuffle.py_func to globals whose numpy.random.permutation is answered by the simulator (seeded or enumerated)"},
+ {"name": "iosim", "path": "engines/iosim.py", "serves_properties": ["C16"], "kind_free_text": "simulated raw byte source behind `open` (short reads, truncation) under the real io.BufferedReader/TextIOWrapper"},
+ {"name": "parsim", "path": "engines/parsim.py", "serves_properties": ["C17"], "kind_free_text": "simulated joblib.Parallel: seeded worker count, dealing, completion order, worker failure; results in submission order"},
  {"name": "genome", "path": "engines/genome.py", "serves_properties": ["C12", "C16", "C17"], "kind_free_text": "generated FASTA / MEME / BED / bigWig worlds in the per-run scratch directory"},
  {"name": "threads", "path": "engines/threads.py", "serves_properties": ["C13", "C12"], "kind_free_text": "AST re-compilation of numba prange bodies into steppable generators; simulated thread scheduler; poisoned numpy.empty allocator"},
 ]
